@@ -29,6 +29,16 @@ fn usage() -> ! {
 }
 
 fn main() {
+    // the panic hook is silent (panics of the code under test are caught and judged); a panic
+    // of the harness itself must not end the process without a word
+    let r = std::panic::catch_unwind(real_main);
+    if let Err(p) = r {
+        eprintln!("MACHINERY-ERROR: the harness itself panicked at {}: {}", seqx::last_panic_loc(), seqx::panic_msg(&p));
+        std::process::exit(3);
+    }
+}
+
+fn real_main() {
     let args: Vec<String> = std::env::args().collect();
     if args.len() < 3 {
         usage();
